@@ -57,6 +57,7 @@ func C04(r *core.Run) {
 	presentNeverSkipped(r, printRel+"/optionreflect", "walkOptionMessage", "every populated option field is printed")
 	// descriptions: the comment of an element is registered under the path of that element
 	commentPathNumbers(r)
+	referenceNamesResolve(r) // the generated text names the type the descriptor has
 	slotAgreement(r)
 	boundPolarity(r)
 	extStructCompat(r)
